@@ -19,10 +19,10 @@
 #include <random>
 #include "common.hpp"
 using namespace pops;
-using verif::Rng;
+using ::verif::Rng;
 typedef Raster<int> IR;
 
-static verif::Stats stats;
+static ::verif::Stats stats;
 
 struct Dy {  // dyadic rational num / den
     long num; long den;
@@ -111,7 +111,7 @@ struct Built { bool ok; std::string err; int rows, cols; };
 static Probe* emit_new(std::ostream& out, const char* lawname, DispersalKernelType type, const IR& disp, Dy pct, Dy ew, Dy ns, Dy scale, Dy shape, Built& b) {
     Probe* k = nullptr;
     out << "det.new " << lawname << " " << pct.s() << " " << ew.s() << " " << ns.s() << " " << scale.s() << " " << shape.s() << " => ";
-    std::string e = verif::err_kind([&] { k = new Probe(type, disp, pct.v(), ew.v(), ns.v(), scale.v(), shape.v()); });
+    std::string e = ::verif::err_kind([&] { k = new Probe(type, disp, pct.v(), ew.v(), ns.v(), scale.v(), shape.v()); });
     if (!e.empty()) {
         out << e << "\n"; b.ok = false; b.err = e; stats.add("new_" + e.substr(4)); return nullptr;
     }
@@ -129,12 +129,12 @@ static void emit_call(std::ostream& out, Probe& k, int row, int col, int n) {
     std::default_random_engine g;
     out << "det.call " << row << " " << col << " " << n << " => ";
     int r = 0, c = 0;
-    std::string e = verif::err_kind([&] { std::tie(r, c) = k(g, row, col); });
+    std::string e = ::verif::err_kind([&] { std::tie(r, c) = k(g, row, col); });
     if (e.empty()) out << r << " " << c << "\n"; else out << e << "\n";
     stats.add("calls");
 }
 
-static void alloc_case(verif::Case& c) {
+static void alloc_case(::verif::Case& c) {
     Rng& rng = c.rng; std::ostream& out = c.out;
     int li = (int)(c.index % 10);
     Dy scale, shape; random_params(rng, li, scale, shape);
@@ -157,7 +157,7 @@ static void alloc_case(verif::Case& c) {
         delete k; stats.add("out_of_domain_params"); return;
     }
     double dmax = 0; bool have = false;
-    std::string e0 = verif::err_kind([&] { dmax = law_icdf(li, scale.v(), uses_shape(li) ? shape.v() : 1.0, pct.v()); have = true; });
+    std::string e0 = ::verif::err_kind([&] { dmax = law_icdf(li, scale.v(), uses_shape(li) ? shape.v() : 1.0, pct.v()); have = true; });
     (void)e0;
     // resolutions: the window gets 1..15 cells per axis; ns != ew most of the time
     Dy ns{16, 16}, ew{16, 16};
@@ -211,7 +211,7 @@ static void alloc_case(verif::Case& c) {
     delete kp;
 }
 
-static void quantile_case(verif::Case& c) {
+static void quantile_case(::verif::Case& c) {
     Rng& rng = c.rng; std::ostream& out = c.out;
     int li = (int)(c.index % 10);
     Dy scale, shape; random_params(rng, li, scale, shape);
@@ -222,7 +222,7 @@ static void quantile_case(verif::Case& c) {
         Dy p = t == 0 ? Dy{1, 2} : (rng.coin(70) ? Dy{rng.in(1, 63), 64} : Dy{rng.in(1, 1023), 1024});
         out << "det.q " << LAWS[li] << " " << scale.s() << " " << shape.s() << " " << p.s() << " => ";
         double x = 0;
-        std::string e = verif::err_kind([&] { x = law_icdf(li, scale.v(), shape.v(), p.v()); });
+        std::string e = ::verif::err_kind([&] { x = law_icdf(li, scale.v(), shape.v(), p.v()); });
         if (e.empty()) { out << bits(x) << "\n"; xs.push_back(x); } else { out << e << "\n"; stats.add("icdf_" + e.substr(4)); }
         stats.add("icdf_evaluations");
     }
@@ -230,7 +230,7 @@ static void quantile_case(verif::Case& c) {
     for (Dy p : {Dy{0, 1}, Dy{1, 1}, Dy{-1, 4}, Dy{5, 4}}) {
         out << "det.q " << LAWS[li] << " " << scale.s() << " " << shape.s() << " " << p.s() << " => ";
         double x = 0;
-        std::string e = verif::err_kind([&] { x = law_icdf(li, scale.v(), shape.v(), p.v()); });
+        std::string e = ::verif::err_kind([&] { x = law_icdf(li, scale.v(), shape.v(), p.v()); });
         if (e.empty()) out << bits(x) << "\n"; else out << e << "\n";
     }
     for (int t = 0; t < 5; t++) xs.push_back(rng.in(0, 640) / 32.0);
@@ -239,7 +239,7 @@ static void quantile_case(verif::Case& c) {
         if (x < 0 && (li == 9 || li == 6 || li == 1 || li == 2 || li == 4 || li == 8)) x = -x;  // pow of a negative base / guarded laws
         out << "det.pdf " << LAWS[li] << " " << scale.s() << " " << shape.s() << " " << bits(x) << " => ";
         double v = 0;
-        std::string e = verif::err_kind([&] { v = law_pdf(li, scale.v(), shape.v(), x); });
+        std::string e = ::verif::err_kind([&] { v = law_pdf(li, scale.v(), shape.v(), x); });
         if (e.empty()) out << bits(v) << "\n"; else out << e << "\n";
         stats.add("pdf_evaluations");
     }
@@ -253,11 +253,11 @@ static void quantile_case(verif::Case& c) {
 static void q_line(std::ostream& out, int li, Dy scale, Dy shape, Dy p) {
     out << "det.q " << LAWS[li] << " " << scale.s() << " " << shape.s() << " " << p.s() << " => ";
     double x = 0;
-    std::string e = verif::err_kind([&] { x = law_icdf(li, scale.v(), shape.v(), p.v()); });
+    std::string e = ::verif::err_kind([&] { x = law_icdf(li, scale.v(), shape.v(), p.v()); });
     if (e.empty()) out << bits(x) << "\n"; else out << e << "\n";
 }
 
-static void witness_case(verif::Case& c) {
+static void witness_case(::verif::Case& c) {
     std::ostream& out = c.out; IR disp(5, 5, 0); Built b;
     switch (c.index % 6) {
     case 0: {  // F21: power law alpha = 2, xmin = 1, p = 1/2: icdf = 2, cdf(2) = 2/3
@@ -301,9 +301,9 @@ int main(int argc, char** argv) {
     long count = argc > 4 ? std::stol(argv[4]) : 100;
     // self-test of the exact transport of doubles
     if (frombits(bits(0.1)) != 0.1 || bits(1.0) != 0x3FF0000000000000ULL) { std::cerr << "bit transport self-test failed\n"; return 3; }
-    if (mode == "alloc") verif::run_cases("h_det", mode, seed, first, count, alloc_case);
-    else if (mode == "quantile") verif::run_cases("h_det", mode, seed, first, count, quantile_case);
-    else if (mode == "witness") verif::run_cases("h_det", mode, seed, first, count, witness_case);
+    if (mode == "alloc") ::verif::run_cases("h_det", mode, seed, first, count, alloc_case);
+    else if (mode == "quantile") ::verif::run_cases("h_det", mode, seed, first, count, quantile_case);
+    else if (mode == "witness") ::verif::run_cases("h_det", mode, seed, first, count, witness_case);
     else { std::cerr << "unknown mode " << mode << "\n"; return 2; }
     stats.dump("h_det");
     return 0;
